@@ -96,6 +96,8 @@ class C16(Prop):
                 opts["write_blackbox"] = r.choice([True, False])
             if r.random() < 0.3:
                 opts["defparam"] = True
+            if r.random() < 0.25:
+                opts["definition_list"] = {"pick": r.randint(0, 10 ** 6), "k": r.choice([1, 2, 5])}
         if fmt == "eblif":
             if r.random() < 0.5:
                 opts["write_blackbox"] = r.choice([True, False])
